@@ -102,6 +102,7 @@ func main() {
 	}
 	o := &Out{cases: bufio.NewWriterSize(cf, 1<<20), impl: bufio.NewWriterSize(imf, 1<<20), seen: map[string]bool{}}
 	o.meta = Meta{Fragment: *frag, Seed: *seed, Dist: map[string]int{}, Findings: []Finding{}, Samples: []string{}}
+	startWatchdog(o, *outDir)
 	f(newGen(*seed), *n, o)
 	o.cases.Flush()
 	o.impl.Flush()
